@@ -14,7 +14,7 @@ func init() {
 	core.Register(&core.Prop{
 		ID:    "C04",
 		Level: "exploration",
-		Rule: "seeded histories of insert / delete / update (single and batch, batches >= 11, clocks past 10/100) on List and on a Document array, 2-4 replicas, every value a unique tag; after EVERY step the touched replica's full sequence is read and checked: no tag twice, visible elements == elements whose insert the replica has applied minus those whose delete it has applied, every visible tag was written to that element by an applied operation, a local insert at i is readable at i..i+k-1, and a global pairwise order relation over element identities is never contradicted on any replica at any moment; " +
+		Rule: "seeded histories of insert / delete / update (single and batch, batches >= 11, clocks past 10/100) on List and on a Document array, 2-4 replicas, every value a unique tag, interleaved with committed and aborted user transactions of sequence calls (an abort restores the replica from its own snapshot export and replays); after EVERY step the touched replica's full sequence is read and checked: no tag twice, visible elements == elements whose insert the replica has applied minus those whose delete it has applied, every visible tag was written to that element by an applied operation, a local insert at i is readable at i..i+k-1, and a global pairwise order relation over element identities is never contradicted on any replica at any moment; " +
 			"non-trivial = some remote insert was applied whose anchor is a tombstone on the receiving replica or has a concurrently inserted right neighbour (same anchor, another client); distinct = hash of the step script",
 		Assumptions: []string{
 			"element identity of an inserted value = (operation timestamp, index in batch) as carried in the emitted operations; targets of delete/update are read from the emitted operations",
@@ -298,6 +298,41 @@ func runC04(c *core.Case) *core.Result {
 					}
 				}
 				c.Count("local_inserts_checked", 1)
+			}
+		case k == 12:
+			// a user transaction of 1-3 sequence calls, committed or aborted: an abort restores
+			// the replica from its own snapshot export and replays (the path by which a live
+			// replica comes to hold state that was loaded, not built operation by operation)
+			var body []crdt.Op
+			size := 0
+			if doc {
+				arr, _ := crdt.Navigate(rep.DT.(orda.Document), []interface{}{"a"}).GetValue().([]interface{})
+				size = len(arr)
+			} else {
+				size = rep.DT.(orda.List).Size()
+			}
+			for j := 0; j < 1+r.Intn(3); j++ {
+				if doc {
+					body = append(body, g.SeqOp(size, []interface{}{"a"}))
+				} else {
+					body = append(body, g.SeqOp(size, nil))
+				}
+			}
+			var fail error
+			if r.Intn(3) > 0 {
+				fail = errBoom
+			}
+			c.Step("r%d transaction %s fail=%v", rep.Idx, crdt.JS(body), fail != nil)
+			if pm := safely(func() { runTx(rep, body, fail, false) }); pm != "" {
+				return c.Violation(sh.typ+":panic:transaction", "r%d: transaction %s panicked: %s", rep.Idx, crdt.JS(body), pm)
+			}
+			if fail != nil {
+				c.Count("aborted_transactions", 1)
+			} else {
+				c.Count("committed_transactions", 1)
+			}
+			if sig, msg := h.After(rep); sig != "" {
+				return c.Violation(sh.typ+":"+sig, "%s (after a transaction, aborted=%v)", msg, fail != nil)
 			}
 		case k < 18:
 			upto := rep.Recvd + r.Intn(len(h.Log.Entries)-rep.Recvd+2)
